@@ -1,8 +1,8 @@
 """C13 ECDSA signatures are canonical (low-S, DER), nonces derive from (message, key) or a CSPRNG, verifier range checks."""
 import ast
 
-from ..core import Property, unparse, norm
-from ..sym import Interp, S, term, show, subterms
+from ..core import Property, unparse, norm, AnalysisError
+from ..sym import Interp, S, term, show, subterms, State
 from .. import intv, mut
 from ..layout import plus_to_cat
 from .common_sig import N, fast, sigrange, argorder, verify_args, SELF
@@ -308,3 +308,65 @@ def fixed_width_mods(ctx):
     """Every int.to_bytes of keys.py (r, s, secrets, nonces) uses a width that does not depend on the value."""
     from .common_width import fixed_width_modules as run
     run(ctx, ['keys'], 'r / s / k with leading zero bytes are serialised shorter: compact signatures and RFC6979 inputs change', 20)
+
+
+@PROP.obligation('C13.digest-form', canaries=[
+    mut.replace_stmt('keys', 'Signature.create', 'if isinstance(txid, bytes):', 'txid = to_bytes(txid).hex()', 'digest bytes pass through the hex-sniffing normaliser'),
+    mut.replace_expr('keys', 'Signature.verify', 'to_hexstring(txid)', 'txid', 'digest string reaches the verifier unvalidated'),
+])
+def digest_form(ctx):
+    """The message digest reaches the ECDSA back end as the hexadecimal text of exactly the bytes the caller gave. Signature.create: a
+    bytes digest becomes txid.hex() - it does not pass through to_bytes / normalize_var, which reinterpret bytes that happen to spell
+    hexadecimal text (b'deadbeef'*4 would be signed as 16 other bytes). Signature.verify: the digest argument is stored through
+    to_hexstring (or .hex()), never as given - the C verifier reads a string that is not hexadecimal as the number 0, for which anyone
+    can forge a signature."""
+    q = 'keys:Signature.create'
+    fn = ctx.repo.func(q)
+    T = ('var', 'txid')
+    stmts = []
+    for s_ in fn.body:
+        if isinstance(s_, ast.Expr) and isinstance(s_.value, ast.Constant):
+            continue
+        writes = any(isinstance(n, ast.Name) and n.id == 'txid' and isinstance(n.ctx, ast.Store) for n in ast.walk(s_))
+        reads = any(isinstance(n, ast.Name) and n.id == 'txid' for n in ast.walk(s_))
+        if writes:
+            stmts.append(s_)
+        elif reads:
+            break
+    if not stmts:
+        ctx.undecided('Signature.create: normalisation of the digest argument not found')
+
+    def decide(t):
+        if isinstance(t, tuple) and t and t[0] == 'isinstance' and t[1] == T:
+            return 'bytes' in repr(t[2])
+        if isinstance(t, tuple) and t and t[0] == 'cmp' and any(isinstance(x, tuple) and x and x[0] == 'len' for x in t[2:4]):
+            return False        # a 32-byte digest: not longer than 64 characters
+        return None
+    it = Interp(ctx.repo, 'keys', decide=decide)
+    st = State(env={'txid': S(T, 'bytes')})
+    it.frames.append([])
+    try:
+        for s_ in stmts:
+            st = it.exec_stmt(s_, st)
+    except AnalysisError as e:
+        ctx.undecided('Signature.create: digest normalisation not evaluable: %s' % str(e)[:100])
+    got = term(st.env.get('txid'))
+    ctx.saw('Signature.create: a bytes digest becomes %s' % show(got)[:120])
+    sniff = [x for x in subterms(('w', got)) if isinstance(x, tuple) and x[0] == 'call' and x[1] in ('to_bytes', 'normalize_var', 'to_hexstring', 'change_base')]
+    if sniff:
+        ctx.violate(q, 'a digest given as bytes passes through %s(...), which reinterprets bytes that spell hexadecimal text' % sniff[0][1], stmts[0],
+                    'for a digest such as b"deadbeef" * 4 another value is signed: the produced signature does not verify for the digest the caller gave')
+    elif got not in (('mcall', T, 'hex', (), ()), ('hex', T)):
+        ctx.unsure('%s: a bytes digest becomes %s' % (q, show(got)[:100]))
+    q = 'keys:Signature.verify'
+    fn = ctx.repo.func(q)
+    asg = [n for n in ast.walk(fn) if isinstance(n, ast.Assign) and norm(n.targets[0]) == 'self.txid']
+    if not asg:
+        ctx.undecided('Signature.verify: the digest argument is not stored')
+    for a in asg:
+        v = a.value
+        ctx.saw('Signature.verify: self.txid = %s' % norm(v))
+        ok = isinstance(v, ast.Call) and (norm(v.func) == 'to_hexstring' or (isinstance(v.func, ast.Attribute) and v.func.attr == 'hex'))
+        if not ok and any(isinstance(n, ast.Name) and n.id == 'txid' for n in ast.walk(v)):
+            ctx.violate(q, 'the digest argument is stored as `%s` without conversion to hexadecimal text' % norm(v), a,
+                        'a digest string that is not plain hex ("0x..", a typo) reaches the C verifier, which reads it as 0: a signature forged for digest 0 (no private key needed) is accepted')
